@@ -46,6 +46,7 @@ def _gen_call(rng):
                  "default_chunksize": rng.choice([1, 1, 1, 2, 3])},
         "ray_order_seed": rng.randrange(1 << 30),
         "reuse_pool": rng.random() < 0.6,
+        "ncpus_default": rng.random() < 0.15,
     }
 
 
@@ -237,7 +238,12 @@ def _one_call(scn, k, shared_pool, verdicts, c):
                     return SimPool(processes, log=log, **pcfg)
 
                 pdiag.Pool = factory
-                out = pdiag.misorientation_indices(stack, system, bins=bins, ncpus=scn["W"])
+                if scn.get("ncpus_default"):
+                    # ncpus=None: PyDRex chooses the worker count itself
+                    out = pdiag.misorientation_indices(stack, system, bins=bins)
+                    c["ncpus_left_to_pydrex"] = c.get("ncpus_left_to_pydrex", 0) + 1
+                else:
+                    out = pdiag.misorientation_indices(stack, system, bins=bins, ncpus=scn["W"])
                 submitted_items = log.get("items", [])
             else:
                 fake = FakeRay(None, scn["ray_order_seed"], log)
